@@ -67,6 +67,7 @@ type ledger struct {
 	Readers int `json:"readers"` // other library goroutines (stream readers, watchers)
 	Child   int `json:"child"`   // child processes not reaped
 	Streams int `json:"streams"` // listening streams opened after Close
+	Answers int `json:"answers"` // POSTs carrying the client's answer to a request of the server that are still in flight after Close
 }
 
 type observation struct {
